@@ -292,6 +292,16 @@ def pair(ctx: Any) -> List[Ob]:
     oc_o, _ = traces(ctx, proc, {**live, 'current_time_millis()': 1000.0, '._clock_resolution_millis': 1.0}, eff_o, loop_bound=1, for_iter=lambda n, e: True)
     late = [t for t in oc_o if 'MAPSTORE' in t and 'UNMAP' in t[t.index('MAPSTORE'):]]
     obs.append(ob(R, proc, 'del self._next_scheduled_for_alias[query.alias] ... self.schedule_rescue_query(...)', 'the map entry of a query taken from the heap is removed before its rescue entry is stored, never after', bool(oc_o) and any('MAPSTORE' in t for t in oc_o) and not late, str(sorted(map(str, late)))[:200]))
+    # the rescue entries are armed whether or not a question went out (a question suppressed by the duplicate history must
+    # still be followed by the 85 % and 95 % attempts): the loop that arms them is on every path to the end of the routine
+    rescue_loops = [n for n in cfg.nodes if n.kind == 'for' and norm(n.ast.iter) in rescue_lists]
+    direct = [n for n in cfg.nodes if any(call_name(c) == 'schedule_rescue_query' for c in n.calls()) and any(isinstance(l_, ast.While) for l_ in n.in_loop)]
+    if rescue_loops:
+        drain = [n for n in cfg.nodes if n.kind == 'loop_test' and any(call_name(c) == 'heappop' for m_ in cfg.nodes if n.ast in [l_ for l_ in m_.in_loop] or (hasattr(n.ast, 'lineno') and False) for c in m_.calls())] or [n for n in cfg.nodes if n.kind == 'loop_test']
+        w_ = cfg.must_pass_before_exit(drain[0], lambda n: n in rescue_loops)
+        obs.append(ob(R, proc, rescue_loops[0].ast.iter, 'the rescue queries of the entries taken from the heap are armed on every path (not only when a query was actually sent)', w_ is None, 'a path reaches the end of the routine without arming the rescue queries' if w_ is not None else ''))
+    elif not direct:
+        raise AnalysisError('anchor vanished: where _process_ready_types arms the rescue queries')
     canc = dict(atoms)
     canc[f'{me}._query_heap'] = ['q']
     canc['.cancelled'] = True
